@@ -46,8 +46,8 @@ def bounds(tier, alpha):
     """(k_add, k_after): all add-sequences up to k_add; after a removal up to k_after further adds"""
     n = len(alpha)
     if tier == 'quick':
-        return (3 if n <= 5 else 2), (1 if n <= 8 else 0)
-    return (4 if n <= 5 else 3 if n <= 10 else 2), (1 if n <= 14 else 0)
+        return (3 if n <= 5 else 2), (1 if n <= 8 else 0), (3 if n <= 8 else 0)
+    return (4 if n <= 5 else 3 if n <= 10 else 2), (1 if n <= 14 else 0), (4 if n <= 6 else 3 if n <= 12 else 0)
 
 
 def hstr(h):
@@ -78,7 +78,7 @@ def eval_type(args):
     lib = hist.Lib()
     model = xsdspec.MODELS[tkey]
     alpha = xsdspec.alphabet(model)
-    k_add, k_after = bounds(tier, alpha)
+    k_add, k_after, k_add_only = bounds(tier, alpha)
     # names occurring in several leaves (forward makes sense)
     leaves = []
 
@@ -107,7 +107,7 @@ def eval_type(args):
             obs_cache[key] = hist.observe(lib, name, h, alpha, check)
         return obs_cache[key]
 
-    for idx, h in enumerate(hist.histories(alpha, k_add, dup_names=dups, k_after=k_after)):
+    for idx, h in enumerate(hist.histories(alpha, k_add, dup_names=dups, k_after=k_after, k_add_only=k_add_only)):
         if idx % nshards != shard:
             continue
         n_hist += 1
